@@ -80,7 +80,7 @@ def run_case(case, ctx):
     opts = {"clim_type": case["clim_type"]}
     d = os.path.join(ctx.workdir, "c%d" % ctx.evaluations)
     os.makedirs(d, exist_ok=True)
-    paths, cpath = gen.materialize(ds, d, None)
+    paths, cpath = gen.materialize(ds, d, random.Random(len(ds["inputs"][0]["cells"]) + 7 * len(ds["inputs"])))
     F = len(ds["inputs"])
     fmts = "".join(i["fmt"][0] for i in ds["inputs"]) + ("+c" + ds["clim"]["fmt"][0] if ds["clim"] else "")
     ensemble_derived = kind == "ens"
